@@ -3,11 +3,22 @@
   Theorems about `Model.Dhcp4File` (= `saveConfig`, `loadByteArray` and the reset logic of `Config.New`
   after `yaml.Unmarshal`), for every decoded record, every capture predicate, every expected configuration.
   The YAML codec is a parameter (`restart_roundtrip` assumes it round-trips records).
+
+  Second half (`damaged_intact_or_empty` and its corollaries): the byte level.  `saveConfig` writes the
+  integrity line `# sha256: <hex>` first; for every file it writes and every fault of the quantifier of C18
+  (any prefix, any single-byte substitution, deletion or duplication of one line) the constructor yields the
+  intact bindings or the empty table.  The hash function is a parameter (`Hash`); what is assumed about it is
+  stated per pair of files (`NoCollision h body body'` for the original and the damaged body), and what is
+  assumed about the YAML decoder is stated per damaged file that reaches it through the legacy path
+  (`Harmless`: a damaged first line is ignored, or the decoder fails, or the document is empty).
+  Files WITHOUT integrity line are loaded exactly as before (`legacy_file_unchanged`): for them only the first
+  half holds.
 -/
 import PacketVerif.Model.Dhcp4File
 import PacketVerif.Lemmas.Dhcp4Srv
+import PacketVerif.Lemmas.Dhcp4Seal
 namespace PV.Props.C18
-open PV PV.Model.Dhcp4Srv PV.Model.Dhcp4File PV.Lemmas.Dhcp4Srv
+open PV PV.Model.Dhcp4Srv PV.Model.Dhcp4File PV.Lemmas.Dhcp4Srv PV.Lemmas.Dhcp4Seal
 
 /-- an outcome that is a value or a returned error -/
 def Returns {α} (o : Outcome α) : Prop := (∃ a, o = .ok a) ∨ (∃ e, o = .err e)
@@ -351,5 +362,240 @@ example : (construct ⟨0, 28, 1, 9, 1, 1⟩ ⟨8, 29, 9, 9, 77, 3⟩ (fun m => 
                 ([3], ⟨.free, [0, 3], some 12, none, [9], .net1, 3⟩)] }))) =
     .ok { net1 := ⟨0, 28, 1, .v4 9, .v4 1, 1, 14400, 1⟩, net2 := ⟨8, 29, 9, .v4 9, .v4 77, 9, 14400, 3⟩,
           table := [([1], ⟨.allocated, [0, 1], some 10, none, [7], .net2, 500⟩)] } := by decide
+
+/-! ### the integrity line: damaged files -/
+
+/-- `f` without its `k`-th line -/
+def delLine (f : Bytes) (k : Nat) : Bytes := ((lines f).eraseIdx k).flatten
+
+/-- `f` with its `k`-th line repeated -/
+def dupLine (f : Bytes) (k : Nat) : Bytes := ((lines f).take (k + 1) ++ (lines f).drop k).flatten
+
+/-- the faults C18 quantifies over: truncation at any byte offset, substitution of one byte, deletion or
+    duplication of one line (an out-of-range offset / index leaves the file as it is) -/
+inductive Fault (f : Bytes) : Bytes → Prop
+  | cut (n : Nat) : Fault f (f.take n)
+  | subst (i : Nat) (c : UInt8) : Fault f (f.set i c)
+  | delLine (k : Nat) : Fault f (delLine f k)
+  | dupLine (k : Nat) : Fault f (dupLine f k)
+
+/-- the hash function does not confuse THIS damaged body with the original one -/
+def NoCollision (h : Hash) (body body' : Bytes) : Prop := h.H body' = h.H body → body' = body
+
+/-- what is assumed of `yaml.Unmarshal` for a damaged file that reaches it (legacy path: the integrity line is cut
+    short or no longer well formed): the remains of the first line are ignored (a comment, an unknown key), or decoding
+    fails, or the document is empty -/
+def Harmless (dec : Bytes → Option FileRec) (f' body : Bytes) : Prop :=
+  dec f' = dec body ∨ dec f' = none ∨ dec f' = some emptyRec
+
+/-- how a damaged file relates to the file written for `body`: first line intact, or everything after it intact, or
+    shorter than a first line, or the first line gone -/
+def Shape (h : Hash) (body f' : Bytes) : Prop :=
+  f'.take 75 = sealLine h body ∨ f'.drop 75 = body ∨ f'.length ≤ 74 ∨ f' = body
+
+theorem take75_sealFile (h : Hash) (body : Bytes) : (sealFile h body).take 75 = sealLine h body :=
+  List.take_left' (sealLine_length h body)
+
+theorem drop75_sealFile (h : Hash) (body : Bytes) : (sealFile h body).drop 75 = body :=
+  List.drop_left' (sealLine_length h body)
+
+/-- every fault of the quantifier leaves the first line intact, or the body intact, or less than a line, or removes
+    exactly the first line -/
+theorem fault_shape (h : Hash) (body f' : Bytes) (hf : Fault (sealFile h body) f') : Shape h body f' := by
+  cases hf with
+  | cut n =>
+    by_cases hn : n ≤ 74
+    · exact Or.inr (Or.inr (Or.inl (Nat.le_trans (List.length_take_le _ _) hn)))
+    · left
+      rw [List.take_take, Nat.min_eq_left (by omega)]
+      exact take75_sealFile h body
+  | subst i c =>
+    by_cases hi : i < 75
+    · right; left
+      rw [List.drop_set_of_lt hi]
+      exact drop75_sealFile h body
+    · left
+      rw [List.take_set_of_le (by omega)]
+      exact take75_sealFile h body
+  | delLine k =>
+    unfold C18.delLine
+    rw [lines_sealFile]
+    cases k with
+    | zero => right; right; right; simp [join_lines]
+    | succ k =>
+      left
+      simp only [List.eraseIdx_cons_succ, List.flatten_cons]
+      exact List.take_left' (sealLine_length h body)
+  | dupLine k =>
+    unfold C18.dupLine
+    rw [lines_sealFile]
+    left
+    simp only [List.take_succ_cons, List.cons_append, List.flatten_cons]
+    exact List.take_left' (sealLine_length h body)
+
+theorem construct_emptyRec (home nf : Expected) (captured : MAC → Bool) :
+    construct home nf captured (some emptyRec) = construct home nf captured none := by
+  simp [construct, loadRec, emptyRec]
+
+theorem harmless_load {dec : Bytes → Option FileRec} {f' body : Bytes} (hh : Harmless dec f' body)
+    (home nf : Expected) (captured : MAC → Bool) :
+    construct home nf captured (dec f') = construct home nf captured (dec body)
+      ∨ construct home nf captured (dec f') = construct home nf captured none := by
+  rcases hh with e | e | e
+  · left; rw [e]
+  · right; rw [e]
+  · right; rw [e]; exact construct_emptyRec home nf captured
+
+/-- the undamaged file: the integrity line verifies and the YAML body is loaded -/
+theorem load_saved (h : Hash) (dec : Bytes → Option FileRec) (home nf : Expected) (captured : MAC → Bool) (body : Bytes) :
+    loadFile h dec home nf captured (some (sealFile h body)) = construct home nf captured (dec body) := by
+  simp only [loadFile, open_sealFile]
+
+/-- a file without well-formed integrity line (older version, hand written) is loaded exactly as before the fix:
+    for such files only `load_total` / `load_sound` hold, a damaged one may still load partially or differently -/
+theorem legacy_file_unchanged (h : Hash) (dec : Bytes → Option FileRec) (home nf : Expected) (captured : MAC → Bool)
+    (f : Bytes) (hl : openFile h f = .legacy f) :
+    loadFile h dec home nf captured (some f) = construct home nf captured (dec f) := by
+  simp only [loadFile, hl]
+
+theorem shape_intact_or_empty (h : Hash) (dec : Bytes → Option FileRec) (home nf : Expected) (captured : MAC → Bool)
+    (body f' : Bytes) (hs : Shape h body f')
+    (hstart : body.take 10 ≠ sealPrefix)
+    (hcol : NoCollision h body (f'.drop 75))
+    (hyaml : openFile h f' = .legacy f' → Harmless dec f' body) :
+    loadFile h dec home nf captured (some f') = construct home nf captured (dec body)
+      ∨ loadFile h dec home nf captured (some f') = construct home nf captured none := by
+  have legacy : openFile h f' = .legacy f' →
+      loadFile h dec home nf captured (some f') = construct home nf captured (dec body)
+        ∨ loadFile h dec home nf captured (some f') = construct home nf captured none := by
+    intro hl
+    rw [legacy_file_unchanged h dec home nf captured f' hl]
+    exact harmless_load (hyaml hl) home nf captured
+  rcases hs with h1 | h2 | h3 | h4
+  · -- first line intact: the hash of the rest decides
+    have e : f' = sealLine h body ++ f'.drop 75 := by
+      conv => lhs; rw [← List.take_append_drop 75 f']
+      rw [h1]
+    have ho := open_line_intact h body (f'.drop 75)
+    rw [← e] at ho
+    by_cases hh : h.H (f'.drop 75) = h.H body
+    · left
+      simp only [loadFile, ho, hh, if_true]
+      rw [hcol hh]
+    · right
+      simp only [loadFile, ho, hh, if_false]
+  · rcases open_body_intact h f' body h2 with ho | ho | ho
+    · exact legacy ho
+    · left; simp only [loadFile, ho]
+    · right; simp only [loadFile, ho]
+  · exact legacy (open_short h f' h3)
+  · subst h4
+    left
+    exact legacy_file_unchanged h dec home nf captured _ (open_no_keyword h _ hstart)
+
+/-- **C18 (d): a damaged lease file yields the intact bindings or the empty table.**  For every YAML body `body`
+    (not itself beginning with the keyword — `yaml.Marshal` output begins with `net1:`), the file `saveConfig` writes
+    for it, and every fault of the quantifier — truncation at any offset (inside the integrity line, right after
+    it, inside the body, of the last line break), one substituted byte (keyword, hex digit, line break of the first
+    line, body), one line deleted or duplicated (the integrity line or a body line) — constructing the handler
+    from the damaged file gives exactly what the undamaged file gives, or what a missing file gives (reset: empty
+    table under the current configuration); never anything else.  Assumed: the hash function does not confuse the
+    damaged body `f'.drop 75` with `body` (one pair), and — only when the damaged file takes the legacy path — the
+    YAML decoder ignores the remains of the first line or fails (`Harmless`). -/
+theorem damaged_intact_or_empty (h : Hash) (dec : Bytes → Option FileRec) (home nf : Expected) (captured : MAC → Bool)
+    (body f' : Bytes) (hf : Fault (sealFile h body) f')
+    (hstart : body.take 10 ≠ sealPrefix)
+    (hcol : NoCollision h body (f'.drop 75))
+    (hyaml : openFile h f' = .legacy f' → Harmless dec f' body) :
+    loadFile h dec home nf captured (some f') = loadFile h dec home nf captured (some (sealFile h body))
+      ∨ loadFile h dec home nf captured (some f') = loadFile h dec home nf captured none := by
+  rw [load_saved]
+  exact shape_intact_or_empty h dec home nf captured body f' (fault_shape h body f' hf) hstart hcol hyaml
+
+/-- the same for the files of `saveConfig` through a codec that round-trips records: intact = exactly the allocated
+    bindings of the saved state (`restart_roundtrip`), empty = reset -/
+theorem damaged_saved_intact_or_empty (h : Hash) (enc : FileRec → Bytes) (dec : Bytes → Option FileRec)
+    (hrt : ∀ r, dec (enc r) = some r) (home nf : Expected) (captured : MAC → Bool) (b : Built) (f' : Bytes)
+    (hf : Fault (saveFile h enc b) f')
+    (hstart : (enc (save b)).take 10 ≠ sealPrefix)
+    (hcol : NoCollision h (enc (save b)) (f'.drop 75))
+    (hyaml : openFile h f' = .legacy f' → Harmless dec f' (enc (save b))) :
+    loadFile h dec home nf captured (some f') = construct home nf captured (some (save b))
+      ∨ loadFile h dec home nf captured (some f') = construct home nf captured none := by
+  have := damaged_intact_or_empty h dec home nf captured (enc (save b)) f' hf hstart hcol hyaml
+  rw [load_saved, hrt] at this
+  exact this
+
+/-- the integrity line itself deleted: the legacy path loads the intact body (no assumption on hash or decoder) -/
+theorem seal_line_deleted (h : Hash) (dec : Bytes → Option FileRec) (home nf : Expected) (captured : MAC → Bool)
+    (body : Bytes) (hstart : body.take 10 ≠ sealPrefix) :
+    loadFile h dec home nf captured (some (delLine (sealFile h body) 0)) = construct home nf captured (dec body) := by
+  have : delLine (sealFile h body) 0 = body := by
+    unfold C18.delLine
+    rw [lines_sealFile]
+    simp [join_lines]
+  rw [this]
+  exact legacy_file_unchanged h dec home nf captured _ (open_no_keyword h _ hstart)
+
+/-- one byte of the integrity line replaced (keyword, hex digit, line break): no assumption on the hash function —
+    the body is intact, so the file is loaded intact (legacy path with a harmless first line, or a hex digit in the
+    other case) or rejected (another hex value; decoder failure) -/
+theorem seal_line_substituted (h : Hash) (dec : Bytes → Option FileRec) (home nf : Expected) (captured : MAC → Bool)
+    (body : Bytes) (i : Nat) (c : UInt8) (hi : i < 75)
+    (hyaml : openFile h ((sealFile h body).set i c) = .legacy ((sealFile h body).set i c) →
+      Harmless dec ((sealFile h body).set i c) body) :
+    loadFile h dec home nf captured (some ((sealFile h body).set i c)) = construct home nf captured (dec body)
+      ∨ loadFile h dec home nf captured (some ((sealFile h body).set i c)) = construct home nf captured none := by
+  have hb : ((sealFile h body).set i c).drop 75 = body := by
+    rw [List.drop_set_of_lt hi]; exact drop75_sealFile h body
+  rcases open_body_intact h _ body hb with ho | ho | ho
+  · rw [legacy_file_unchanged h dec home nf captured _ ho]
+    exact harmless_load (hyaml ho) home nf captured
+  · left; simp only [loadFile, ho]
+  · right; simp only [loadFile, ho]
+
+/-- a truncated body, a substituted body byte, a deleted or duplicated body line, a duplicated integrity line: the
+    first line is intact and a changed rest is rejected (needs only the no-collision assumption for that pair) -/
+theorem body_damaged (h : Hash) (dec : Bytes → Option FileRec) (home nf : Expected) (captured : MAC → Bool)
+    (body rest : Bytes) (hcol : NoCollision h body rest) :
+    loadFile h dec home nf captured (some (sealLine h body ++ rest)) =
+      (if rest = body then construct home nf captured (dec body) else construct home nf captured none) := by
+  simp only [loadFile, open_line_intact]
+  by_cases hr : rest = body
+  · subst hr; simp
+  · have : h.H rest ≠ h.H body := fun e => hr (hcol e)
+    simp [this, hr]
+
+/-! non-vacuity with a toy hash (length and byte sum: enough to tell the faults below apart) and a toy decoder -/
+
+def toyHash : Hash :=
+  { H := fun b => List.replicate 30 0 ++ [UInt8.ofNat b.length, UInt8.ofNat (b.foldl (fun a x => a + x.toNat) 0)],
+    len := by intro b; simp }
+
+/-- `dec` of the toy codec: the body `[110, 10, 120, 10]` ("n\nx\n") is the record with both subnets of the examples above -/
+def toyDec (y : Bytes) : Option FileRec :=
+  if y = [110, 10, 120, 10] then
+    some { net1 := some (subRecOf ⟨0, 28, 1, .v4 9, .v4 1, 1, 14400, 1⟩), net2 := some (subRecOf ⟨8, 29, 9, .v4 9, .v4 77, 9, 14400, 3⟩),
+           leases := some [{ cid := [1], state := 2, mac := [0, 1], ip := .v4 10, offer := none, xid := [7], expiry := 500 }] }
+  else if y.head? = some 35 ∧ 10 ∉ y then some emptyRec else none
+
+def toyLoad (f : Bytes) : Outcome Built :=
+  loadFile toyHash toyDec ⟨0, 28, 1, 9, 1, 1⟩ ⟨8, 29, 9, 9, 77, 3⟩ (fun _ => false) (some f)
+
+def toyFile : Bytes := sealFile toyHash [110, 10, 120, 10]
+
+/-- number of bindings of a constructed handler -/
+def bindings : Outcome Built → Option Nat
+  | .ok b => some b.table.length
+  | _ => none
+
+example : openFile toyHash toyFile = .verified [110, 10, 120, 10] := by decide
+example : bindings (toyLoad toyFile) = some 1 := by decide
+-- cut inside the line, right after it, inside the body, of the last line break; substituted body byte; body line deleted
+example : [toyFile.take 40, toyFile.take 75, toyFile.take 77, toyFile.take 78, toyFile.set 76 11, delLine toyFile 1,
+           dupLine toyFile 0, dupLine toyFile 2].map (fun f => bindings (toyLoad f))
+    = [some 0, some 0, some 0, some 0, some 0, some 0, some 0, some 0] := by decide
+-- integrity line deleted; a hex digit in upper case (the digest `…04fa` -> `…04fA`): intact
+example : [delLine toyFile 0, toyFile.set 73 65].map (fun f => bindings (toyLoad f)) = [some 1, some 1] := by decide
 
 end PV.Props.C18
